@@ -210,7 +210,8 @@ def build_harness(name, go="go", gover="1.23", test_binary=False, repo_dir="repo
     binp = os.path.join(s, "bin_" + name)
     if not build:
         return binp, ""
-    cmd = [go, "test", "-c", "-o", binp, "."] if test_binary else [go, "build", "-o", binp, "."]
+    cover = ["-cover", f"-coverpkg=go.linecorp.com/garr/...,garrharness/{name}"] if os.environ.get("VERIF_COVER") else []  # coverage survey (bin/cover_survey)
+    cmd = [go, "test", "-c", *cover, "-o", binp, "."] if test_binary else [go, "build", *cover, "-o", binp, "."]
     rc, out = sh(cmd, cwd=hdst, env=GOENV, timeout=900)
     if rc != 0:
         return None, out[-3000:]
@@ -466,7 +467,8 @@ def pool_shard(binp, seed, first, runs, tmpdir, idx, test="TestScenarios"):
     trp = os.path.join(tmpdir, f"pooltr_{idx}_{first}.txt")
     monp = os.path.join(tmpdir, f"poolmon_{test}_{idx}_{first}.txt")
     env = dict(os.environ, POOL_SEED=str(seed), POOL_FIRST=str(first), POOL_RUNS=str(runs), POOL_TRACE=trp, POOL_MON=monp)
-    p = subprocess.run([binp, "-test.run", f"^{test}$", "-test.timeout", "3600s"], env=env, stdout=subprocess.PIPE, stderr=subprocess.STDOUT, text=True)
+    covflag = [f"-test.gocoverdir={os.environ['GOCOVERDIR']}"] if os.environ.get("VERIF_COVER") else []
+    p = subprocess.run([binp, "-test.run", f"^{test}$", "-test.timeout", "3600s", *covflag], env=env, stdout=subprocess.PIPE, stderr=subprocess.STDOUT, text=True)
     o = {"accepted": 0, "rejected": [], "mon_ok": 0, "monfail": [], "crash": None, "progs": {}, "first_accept": None,
          "cmd": f"POOL_SEED={seed} POOL_FIRST={first} POOL_RUNS={runs} {binp} -test.run ^{test}$", "maxrunning": 0}
     last_run = None
